@@ -227,6 +227,34 @@ def audit_case(case, failures, stats):
             got = r2["obs"][nm]
             if len(got) != len(want) or any(relerr(a, b, scale) > 1e-12 for a, b in zip(got, want)):
                 fail("not-homogeneous-" + nm, f"{nm}: baseline x {factor} does not scale the series by {factor}")
+    # numeric overrides of the option layer: every yearly ratio of the run WITHOUT the override, times the multiplier,
+    # must be what the series of the run WITH the override follow (month by month, incl. the last year block)
+    opts = case.get("options") or {}
+    if case["kind"] == "real" and ("CROP_PRODUCTION_MULTIPLIER" in opts or "GRASSES_PRODUCTION_MULTIPLIER" in opts) and r.get("crops"):
+        stats["checks"] += 2
+        stats["override_cases"] = stats.get("override_cases", 0) + 1
+        base_case = copy.deepcopy(case)
+        mc = float(base_case["options"].pop("CROP_PRODUCTION_MULTIPLIER", 1.0))
+        mg = float(base_case["options"].pop("GRASSES_PRODUCTION_MULTIPLIER", 1.0))
+        r0 = c08_impl.run_case(base_case)
+        if r0["inputs"] is None or not r0.get("crops"):
+            fail("override-base-rejected", f"{case['iso3']}: the same options without the multipliers were rejected: {r0['errs']}")
+        else:
+            ci = copy.deepcopy(r0["crops"]["inputs"])
+            ci["ratios"] = [x * mc for x in ci["ratios"]]
+            if ci["add"]:
+                want, _, _ = c09_audit.closed_form(ci, r["crops"]["pw"])
+                bad = cmp_series(r["crops"]["obs"]["prod"], want)
+                if bad is not None:
+                    fail("override-crops", f"{case['iso3']} CROP_PRODUCTION_MULTIPLIER={mc}: outdoor crops month {bad} is "
+                         f"{r['crops']['obs']['prod'][bad]!r}; table ratio x multiplier gives {float(want[bad])!r}", month=bad)
+            gi = copy.deepcopy(r0["inputs"])
+            gi["grass"]["ratios"] = [x * mg for x in gi["grass"]["ratios"]]
+            wantg = expected(gi)["grass"]
+            bad = cmp_series(o["grass"], wantg)
+            if bad is not None:
+                fail("override-grass", f"{case['iso3']} GRASSES_PRODUCTION_MULTIPLIER={mg}: grass month {bad} is {o['grass'][bad]!r}; "
+                     f"table ratio x multiplier gives {float(wantg[bad])!r}", month=bad)
     # crops of real runs: shape + closed form + homogeneity
     if r.get("crops"):
         cr = r["crops"]
